@@ -10,7 +10,10 @@ import (
 	"strconv"
 
 	"verifharness/core"
+	_ "verifharness/fam/enums"
 	_ "verifharness/fam/indent"
+	_ "verifharness/fam/numbers"
+	_ "verifharness/fam/ranges"
 )
 
 func main() {
